@@ -54,9 +54,10 @@ func (Prop) Describe(t vp.Tier) vp.Description {
 	return vp.Description{
 		Rule: fmt.Sprintf("exhaustive stage: every pattern of <= %d tokens over the alphabet %s, against every subject of length <= %d over {a,b,(} "+
 			"(and over {a,(,)} when the pattern contains %%b()) and every start position, through pattern.New + MatchFromStart/Match "+
-			"(all of it up to 3 characters of subject; of the longest subjects against the longest patterns every third, rotating with pattern, subject and seed: see subjectSelected); "+
+			"(quick: complete up to 3 characters of subject and for <= 3 tokens, every third 4-character subject for the 4-token patterns, rotating with pattern, subject and seed; "+
+			"thorough: complete up to 4 characters of subject, 5-character subjects for all patterns of <= 3 tokens and every third for the 4-token ones); "+
 			"one pattern/subject pair in 50 additionally through string.find/match (all init values from -len-2 to len+2 and the default), gmatch and gsub from compiled Lua. "+
-			"iter stage: every pattern of <= %d tokens x every subject of length <= %d through gmatch (with and without init) and gsub with string, table and function replacements and the n argument. "+
+			"iter stage: every pattern of <= 3 tokens (thorough: and one in six of the 4-token ones, %d tokens at most) x every subject of length <= %d through gmatch (with and without init) and gsub with string, table and function replacements and the n argument. "+
 			"random stage: generated longer patterns (all classes %%a %%c %%d %%g %%l %%p %%s %%u %%w %%x and complements, sets with ranges/classes/^, captures, position captures, back-references, %%b, %%f, anchors), "+
 			"byte-level mutations of them and strings of magic characters, against random subjects, through Go and Lua; plus the class tables byte by byte. "+
 			"cpu stage: long and pathological matches inside CPU-limited contexts. Every answer is compared with patmodel (positions, captures incl. position captures, gsub result and count, gmatch sequence, error / no error); "+
